@@ -10,6 +10,7 @@ import (
 	"fmt"
 	"os"
 
+	"verif/harness/dict"
 	"verif/harness/exec"
 	"verif/harness/gen"
 )
@@ -19,6 +20,7 @@ func main() {
 		fmt.Fprintln(os.Stderr, "usage: vh <drive|replay> ...")
 		os.Exit(2)
 	}
+	gen.Dict = dict.Load(dict.Repo())
 	switch os.Args[1] {
 	case "drive":
 		drive(os.Args[2:])
